@@ -396,3 +396,51 @@ Proof.
   rewrite !PathToIndex_pre_rank in E by assumption. injection E as E.
   now apply (pre_rank_inj T h).
 Qed.
+
+(** * cross-property corollaries (for C04 / C10 users): index vs numeric order of the path words *)
+
+Lemma StronglySorted_map_in {A B} (R : A -> A -> Prop) (R' : B -> B -> Prop) (g : A -> B) l :
+  (forall x y, In x l -> In y l -> R x y -> R' (g x) (g y)) -> StronglySorted R l -> StronglySorted R' (map g l).
+Proof.
+  intros Hg Hs. induction Hs as [|a l Hs IH Ha]; cbn [map]; constructor.
+  - apply IH. intros x y Hx Hy. apply Hg; now right.
+  - apply Forall_forall. intros y Hy. apply in_map_iff in Hy. destruct Hy as (x & <- & Hx).
+    rewrite Forall_forall in Ha. apply Hg; [now left|now right|now apply Ha].
+Qed.
+
+(** the path words of the stored nodes, in the order of the enumeration, are strictly ascending *)
+Lemma enc_stored_sorted T h : (h <= 32)%nat -> StronglySorted Z.lt (map (enc h) (stored_nodes T h)).
+Proof.
+  intros Hh. apply (StronglySorted_map_in pre_lt); [|apply stored_nodes_sorted].
+  intros x y Hx Hy Hlt. apply stored_nodes_In in Hx. apply stored_nodes_In in Hy.
+  apply enc_lt_iff; tauto.
+Qed.
+
+(** PathToIndex is strictly monotone w.r.t. the numeric order of the path words *)
+Lemma PathToIndex_mono_word T h q r i j : 1 <= T < 2 ^ 31 -> Height T = Z.of_nat h ->
+  (length q <= h)%nat -> (length r <= h)%nat -> stored T q = true -> stored T r = true ->
+  PathToIndex T (enc h q) = Some i -> PathToIndex T (enc h r) = Some j ->
+  (i < j <-> enc h q < enc h r).
+Proof.
+  intros HT HH Hq Hr Hsq Hsr Ei Ej. destruct (Height_spec T h HT HH) as [_ Hh].
+  rewrite (PathToIndex_mono T h q r i j) by assumption.
+  symmetry. apply enc_lt_iff; lia.
+Qed.
+
+(** the k-th path word of the enumeration has index k: PathToIndex maps the ascending list of
+    stored path words onto 0, 1, ..., T-1 *)
+Lemma PathToIndex_enum T h : 1 <= T < 2 ^ 31 -> Height T = Z.of_nat h ->
+  map (PathToIndex T) (map (enc h) (stored_nodes T h)) =
+  map (fun k => Some (Z.of_nat k)) (seq 0 (Z.to_nat T)).
+Proof.
+  intros HT HH. pose proof (stored_nodes_count_T T h HT HH) as Hc.
+  apply (nth_ext _ _ None None).
+  - rewrite !map_length, seq_length. lia.
+  - intros n Hn. rewrite !map_length in Hn.
+    rewrite (nth_indep _ None (PathToIndex T (enc h []))) by (rewrite !map_length; exact Hn).
+    rewrite map_map, (map_nth (fun q => PathToIndex T (enc h q))).
+    rewrite (nth_indep _ None ((fun k => Some (Z.of_nat k)) 0%nat)) by (rewrite map_length, seq_length; lia).
+    rewrite (map_nth (fun k => Some (Z.of_nat k))). rewrite seq_nth by lia. cbn [plus].
+    pose proof (PathToIndex_nth T h (Z.of_nat n) HT HH ltac:(lia)) as E.
+    rewrite Nat2Z.id in E. exact E.
+Qed.
